@@ -151,7 +151,7 @@ def C12(tier):
 
 # --------------------------------------------------------------------------- array codecs
 ARRAY_CODECS = ["delta.signed", "delta.unsigned", "for", "for.preanalysed", "for.nullmeta", "for.batch", "for.batchenc-scalardec",
-                "pfor.90", "pfor.95", "pfor.99", "group", "group.putget", "dict", "dict.into", "dict.withdict", "rle", "rle.maxsize",
+                "pfor.90", "pfor.95", "pfor.99", "pfor.100", "pfor.40", "group", "group.putget", "dict", "dict.into", "dict.withdict", "rle", "rle.maxsize",
                 "rle.header", "elias.gamma", "elias.delta", "bp128.32", "bp128.64", "bp128.delta32", "bp128.delta64"]
 ADAPTIVE_CODECS = ["adaptive.auto", "adaptive.DELTA", "adaptive.FOR", "adaptive.PFOR", "adaptive.DICT", "adaptive.BITMAP", "adaptive.TAGGED"]
 
